@@ -39,6 +39,7 @@ func hasLoop(fn *ssa.Function) bool {
 // call models one call instruction. ok=false: the call never returns.
 func (e *Exec) call(fr *Frame, st *State, x *ssa.Call) (Value, bool) {
 	c := &x.Call
+	e.onCall(fr, st, x)
 	for _, h := range e.hooks {
 		if handled, res := h.Call(e, fr, st, c, x); handled {
 			if res == nil && x.Type() != nil {
@@ -623,4 +624,62 @@ func (e *Exec) registerDigitGhosts() {
 	mk("dig", 3)
 	mk("ndigbig", 2)
 	mk("digbig", 3)
+}
+
+func calleeName(c *ssa.CallCommon) string {
+	if c.Method != nil {
+		return c.Method.Name()
+	}
+	if f := c.StaticCallee(); f != nil {
+		return f.Name()
+	}
+	return ""
+}
+
+// onCall checks the contract's on-call assertions.
+func (e *Exec) onCall(fr *Frame, st *State, x *ssa.Call) {
+	if fr.parent != nil {
+		return
+	}
+	ct := e.contractOf(fr.fn)
+	if ct == nil || len(ct.OnCalls) == 0 {
+		return
+	}
+	name := calleeName(&x.Call)
+	if name == "" {
+		return
+	}
+	// ordinal of this call among the calls of the same name (block order)
+	nth := 0
+	for _, b := range fr.fn.Blocks {
+		for _, in := range b.Instrs {
+			if c2, ok := in.(*ssa.Call); ok && calleeName(&c2.Call) == name {
+				nth++
+				if c2 == x {
+					goto found
+				}
+			}
+		}
+	}
+found:
+	for i, oc := range ct.OnCalls {
+		if oc.Callee != name || (oc.Nth != 0 && oc.Nth != nth) {
+			continue
+		}
+		oc.used++
+		en := e.newEnv(fr, st, e.entry)
+		en.point = x
+		args := x.Call.Args
+		if x.Call.Method == nil && x.Call.StaticCallee() != nil && x.Call.StaticCallee().Signature.Recv() != nil {
+			args = args[1:]
+		}
+		for k, a := range args {
+			en.vars[fmt.Sprintf("$arg%d", k)] = ev{e.val(fr, a), a.Type()}
+		}
+		lbl := oc.Label
+		if lbl == "" {
+			lbl = fmt.Sprint(i + 1)
+		}
+		e.oblige(st, "on-call", fmt.Sprintf("%s#%d:%s", name, nth, lbl), e.evalClause(en, &Clause{Text: oc.Text, Expr: oc.Expr}), e.posOf(x))
+	}
 }
